@@ -43,7 +43,7 @@ CHECKS.update({
             FR_NOTE, "DESIGN.md 6/C12"),
     "C20": ("model_checking", "TLA+ classification table (MsgTypes.tla) checked by TLC against a complete enumeration trace of the real classifiers",
             "Complete enumeration: one recorded event per type in -2..4095 carrying the answers of MSM4/MSM7/MSM, GetConstellation, GetTitleAndComment, GetMessage's timestamp extraction, the four decoders' "
-            "acceptance of a synthetic well-formed frame of that type, what Analyse attempted and whether String() displays it; TLC checks each against the single table and the table's own cross-consistency.",
+            "acceptance of a synthetic well-formed frame of that type, what Analyse attempted and whether String() displays it; TLC checks each against the single table and the table's own cross-consistency.  Also: the 48 ordered pairs of timed MSM types through one handler, each timed type across its own week roll-over, every type once more as a CRC-failing frame (not typed, no timestamp, no times) and every type displayed by eight goroutines at once in a fresh process.",
             "Trusted: TLC; the synthetic frame is well-formed for every family (so acceptance = err == nil); constellation names compared after normalisation.", "DESIGN.md 6/C20"),
 })
 
